@@ -7,6 +7,7 @@ import (
 	"os"
 	"runtime"
 	"sort"
+	"time"
 
 	"github.com/prometheus/prometheus/promql"
 	"github.com/prometheus/prometheus/promql/parser"
@@ -56,6 +57,7 @@ func init() {
 	// the same comparison with the distributed engine (two remote engines holding the series of even
 	// and of odd index, local queryable = union) in the place of the plain engine
 	families["querydist"] = func(sc *scn.Scenario, em func(vt.Ev)) { famQuery(sc, em, true) }
+	families["apiwin"] = famAPIWindow
 }
 
 // universe of label values in the dataset (plus ""), for regex acceptance sets
@@ -152,5 +154,30 @@ func famQuery(sc *scn.Scenario, em func(vt.Ev), distributed bool) {
 	em(vt.Ev{"ev": "res", "who": "eng", "r": out.C})
 	em(vt.Ev{"ev": "res", "who": "ref", "r": rout.C})
 	em(vt.Ev{"ev": "cmp", "a": "eng", "b": "ref", "d": run.Compare(out.C, rout.C)})
+	em(vt.Ev{"ev": "end"})
+}
+
+// famAPIWindow (C13): the scenario's query through the engine's API with an unusual window (a step
+// below a millisecond, start after end - cfg stepns / swap). Only the engine runs, under a
+// deadline; what is decided is that the process survives and Exec returns.
+func famAPIWindow(sc *scn.Scenario, em func(vt.Ev)) {
+	q := sc.Query()
+	expr, err := parser.ParseExpr(q)
+	if err != nil {
+		em(vt.Ev{"ev": "skip", "why": "parse: " + err.Error(), "q": q})
+		return
+	}
+	runtime.GOMAXPROCS(sc.Procs())
+	h := header(sc, expr)
+	h["spec"], h["nospec"] = false, "unusual window"
+	em(h)
+	for _, fb := range []bool{true, false} {
+		eng := engine.New(run.EngineOpts(sc, "default", fb, nil))
+		ctx, cancel := context.WithTimeout(context.Background(), 3*time.Second)
+		out := run.Exec(ctx, eng, run.Store(sc), sc, false)
+		cancel()
+		_ = out
+	}
+	em(vt.Ev{"ev": "skip", "why": "unusual window: survival only", "q": q})
 	em(vt.Ev{"ev": "end"})
 }
